@@ -746,11 +746,25 @@ func posOf(in ssa.Instruction) token.Pos {
 	return in.Pos()
 }
 
+// srcText names a program point by the text of its source line (not by its line number), so that
+// obligation names survive unrelated edits of the file.
 func (tr *trans) srcText(pos token.Pos) string {
 	if !pos.IsValid() {
 		return ""
 	}
 	p := tr.prog.SSA.Fset.Position(pos)
+	lines := tr.prog.fileLines(p.Filename)
+	if p.Line-1 < len(lines) && p.Line >= 1 {
+		s := strings.TrimSpace(lines[p.Line-1])
+		if i := strings.Index(s, "//"); i > 0 {
+			s = strings.TrimSpace(s[:i])
+		}
+		s = strings.Join(strings.Fields(s), " ")
+		if len(s) > 70 {
+			s = s[:70]
+		}
+		return "`" + s + "`"
+	}
 	return fmt.Sprintf("L%d", p.Line)
 }
 
